@@ -486,6 +486,32 @@ example : ∃ f f', load [91, 97, 93, 10, 9, 107, 32, 61, 32, 118] = some f ∧
     f'.write = [91, 97, 93, 10, 9, 107, 32, 61, 32, 34, 120, 32, 121, 32, 34, 10] := by
   refine ⟨_, _, rfl, rfl, by decide +kernel, ⟨_, rfl, rfl⟩, by decide +kernel, by decide +kernel⟩
 
+/-- `C28_full` for the newline the writer inserts IN THE MIDDLE (round 4): after ANY successful call
+(any file value), if the edited events re-parse to themselves with canonical raw events (`hs`, `hc`:
+explicit hypotheses, as in `C28_full_uniform_newlines`) and the writer's output is the events with
+exactly one newline inserted right after one of the section headers (a key or comment on the header
+line, e.g. after `set` into a file written as `[a] k = v`), the written text loads with the same
+view and the same comments per section. Built on C26's `parseRaw_insK`. -/
+theorem C28_full_key_on_header_line (f f' : FileS) (op : AnyOp) (_h : applyAny f op = .ok f')
+    (hs : fileFromBytes (render f'.toFile.events) = some f'.toFile)
+    (hc : ∀ revs, parseRaw (render f'.toFile.events) = some revs → ∀ e ∈ revs, e.canon = true)
+    (pre : List Event) (hd : Header) (tl : List Event) (t : Bytes) (ht : t = [10] ∨ t = [13, 10])
+    (hev : f'.toFile.events = pre ++ .header hd :: tl)
+    (haug : f'.toFile.aug = pre ++ .header hd :: .newline t :: tl)
+    (hY : takeNewlines1 (render tl) = none) :
+    ∃ g, load f'.write = some g ∧ g.view = f'.view ∧ g.comments = f'.comments :=
+  reparse_edited_ins f' hs hc pre hd tl t ht hev haug hY
+
+-- non-vacuity: `[a] k = v\n`, `set a.k = w`: the edited file is written as `[a]\n k = w\n`
+example : ∃ f f' hd tl, load [91, 97, 93, 32, 107, 32, 61, 32, 118, 10] = some f ∧
+    applyAny f (.single (.set [97] none [107] [119])) = .ok f' ∧
+    fileFromBytes (render f'.toFile.events) = some f'.toFile ∧
+    f'.toFile.events = [] ++ .header hd :: tl ∧
+    f'.toFile.aug = [] ++ .header hd :: .newline [10] :: tl ∧
+    takeNewlines1 (render tl) = none ∧
+    f'.write = [91, 97, 93, 10, 32, 107, 32, 61, 32, 119, 10] := by
+  refine ⟨_, _, _, _, rfl, rfl, by decide +kernel, rfl, by decide +kernel, by decide +kernel, by decide +kernel⟩
+
 /-- The property in full (NOT proved): after any call that succeeds, serializing and re-parsing
 gives the view the call means, i.e. `view (load (write (apply f op))) = view (apply f op)`.
 Evaluated by the harness oracle. -/
